@@ -129,7 +129,7 @@ sub_cross (Ctx& c, uint64_t idx)
             if (!same_bits (g1[i], g3[i]))
                 c.fail ("cross3." + tn + ":spelling(%=)", idx, [&] { return Obj ().kv ("class", cls_name[cls]).arr ("a", a, 3).arr ("b", b, 3).kv ("slot", i).kv ("cross", (double) g1[i]).kv ("operator%=", (double) g3[i]).str (); });
         }
-        if (&ret != &g3) c.fail ("cross3." + tn + ":spelling(%= return)", idx, [&] { return Obj ().kv ("what", "operator%= did not return *this").str (); });
+        if (&ret != &g3) c.fail ("cross3." + tn + ":spelling(%=,return)", idx, [&] { return Obj ().kv ("what", "operator%= did not return *this").str (); });
         c.eval ();
         if (any) c.nontrivial (h);
         if (!is_lattice (cls) && std::isfinite (wr))
@@ -143,7 +143,7 @@ sub_cross (Ctx& c, uint64_t idx)
             c.cls ("self_alias");
             for (int i = 0; i < 3; ++i)
                 if (!same_bits (s1[i], s2[i]))
-                    c.fail ("cross3." + tn + ":spelling(%= self)", idx, [&] { return Obj ().arr ("a", a, 3).kv ("slot", i).kv ("a%a", (double) s1[i]).kv ("a%=a", (double) s2[i]).str (); });
+                    c.fail ("cross3." + tn + ":spelling(%=,self_alias)", idx, [&] { return Obj ().arr ("a", a, 3).kv ("slot", i).kv ("a%a", (double) s1[i]).kv ("a%=a", (double) s2[i]).str (); });
         }
     }
     // ---- 2-D scalar: a.x b.y - a.y b.x
@@ -235,7 +235,7 @@ sub_quat (Ctx& c, uint64_t idx)
         if (!same_bits (got[i], got2[i]))
             c.fail ("quatmul." + tn + ":spelling(*=)", idx, [&] { return Obj ().kv ("class", cls_name[cls]).arr ("q1(r,x,y,z)", p, 4).arr ("q2(r,x,y,z)", q, 4).kv ("component", i).kv ("operator*", (double) got[i]).kv ("operator*=", (double) got2[i]).str (); });
     }
-    if (&ret != &g2) c.fail ("quatmul." + tn + ":spelling(*= return)", idx, [&] { return Obj ().kv ("what", "operator*= did not return *this").str (); });
+    if (&ret != &g2) c.fail ("quatmul." + tn + ":spelling(*=,return)", idx, [&] { return Obj ().kv ("what", "operator*= did not return *this").str (); });
     c.eval ();
     if (any) c.nontrivial (hash_arr (hash_arr (3, p, 4), q, 4));
     if (!is_lattice (cls) && std::isfinite (wr))
@@ -247,7 +247,7 @@ sub_quat (Ctx& c, uint64_t idx)
         s2 *= s2;
         c.cls ("self_alias");
         if (!same_bits (s1.r, s2.r) || !same_bits (s1.v[0], s2.v[0]) || !same_bits (s1.v[1], s2.v[1]) || !same_bits (s1.v[2], s2.v[2]))
-            c.fail ("quatmul." + tn + ":spelling(*= self)", idx, [&] { return Obj ().arr ("q(r,x,y,z)", p, 4).kv ("q*q.r", (double) s1.r).kv ("q*=q.r", (double) s2.r).str (); });
+            c.fail ("quatmul." + tn + ":spelling(*=,self_alias)", idx, [&] { return Obj ().arr ("q(r,x,y,z)", p, 4).kv ("q*q.r", (double) s1.r).kv ("q*=q.r", (double) s2.r).str (); });
     }
 }
 MON_SUB_IDX (sub_quat<float>, "quat_product_float", 1000000, 100000000)
